@@ -229,7 +229,9 @@ class CobaRandom:
         sin  = math.sin
 
         while True:
-            R = sqrt(-2*log(next(self._randu)))
+            U = next(self._randu)
+            while U == 0: U = next(self._randu) #log(0) is undefined so we redraw
+            R = sqrt(-2*log(U))
             S = 2*pi*next(self._randu)
             yield R*cos(S)
             yield R*sin(S)
